@@ -14,7 +14,7 @@ Leg R  every configuration TLC printed is built with the real classes: (z, H, R)
 import itertools, json, os
 from concurrent.futures import ThreadPoolExecutor
 import numpy as np
-from . import tlc, filt, pool
+from . import tlc, filt, pool, exc
 
 INV = ["JacobianIsDerivative", "T32IsConstraint", "DimsAgree", "ObservesOwnBlock", "NoSpuriousCoupling"]
 ANGLE = {0: 0.0, 1: 90.0, 2: 180.0, 3: -90.0}
@@ -101,8 +101,9 @@ def replay_configs(m, chunk):
         try:
             probs = _one(m, cfg)
         except Exception as e:
-            import traceback
-            probs = ["exception %s: %s | %s" % (type(e).__name__, e, traceback.format_exc().splitlines()[-3:])]
+            if not exc.entered_pyins(e):
+                raise                        # a defect of the harness: machinery error, never a violation
+            probs = ["the library raised " + exc.describe(e)]
         if probs:
             out.append((cfg, probs))
     return out
@@ -280,7 +281,9 @@ def general_predicates(m, seed, n):
                 i = np.unravel_index(np.abs(Hfd - H).argmax(), H.shape)
                 probs.append("general: H is not the derivative of the residual: at (row %d, state %d) H = %.6g, dz/dx = %.6g (%s)" % (i[0], i[1], H[i], Hfd[i], tag))
         except Exception as e:
-            probs.append("general: %s raised %s: %s" % (tag, type(e).__name__, str(e)[:100]))
+            if not exc.entered_pyins(e):
+                raise
+            probs.append("general: %s: the library raised %s" % (tag, exc.describe(e)))
     return probs, worst
 
 
